@@ -14,9 +14,12 @@ import (
 
 	"github.com/ipfs/go-cid"
 	cidlink "github.com/ipld/go-ipld-prime/linking/cid"
+	"github.com/klauspost/compress/zstd"
 	"github.com/rpcpool/yellowstone-faithful/ipld/ipldbindcode"
 	"github.com/rpcpool/yellowstone-faithful/iplddecoders"
+	"github.com/rpcpool/yellowstone-faithful/third_party/solana_proto/confirmed_block"
 	"github.com/rpcpool/yellowstone-faithful/zzverif/cargen"
+	"google.golang.org/protobuf/proto"
 )
 
 // Spec determines one well-formed chain.
@@ -24,7 +27,7 @@ type Spec struct {
 	Seed    int64  `json:"seed"`              // payload bytes, split points, tree shape, link shuffles
 	Len     int    `json:"len"`               // payload length (ignored when Payload is set)
 	K       int    `json:"k"`                 // requested number of frames (clamped to max(1,len) unless AllowEmpty)
-	Layout  string `json:"layout"`            // "schema": groups of Fanout, the LAST frame of a group links to the next group (ledger.ipldsch comment); "schema-head": the FIRST frame of a group carries the links; "tree": random tree, at most Fanout links per frame
+	Layout  string `json:"layout"`            // "schema": groups of Fanout, the LAST frame of a group links to the next group (ledger.ipldsch comment); "schema-head": the FIRST frame of a group carries the links; "tree": random tree, at most Fanout links per frame, links lead to larger indexes; "anytree": the same with the non-root frames relabelled at random
 	Fanout  int    `json:"fanout"`            // 1..10
 	Shuffle int    `json:"shuffle"`           // order of the links inside every `next`: 0 ascending index, 1 descending, 2 random
 	Sum     string `json:"sum"`               // "crc" (CRC64-ISO), "fnv" (legacy FNV-1a), "none" (hash absent)
@@ -164,7 +167,7 @@ func Build(s Spec) *Chain {
 		fan = 1
 	}
 	switch s.Layout {
-	case "tree":
+	case "tree", "anytree":
 		deg := make([]int, k)
 		for i := 1; i < k; i++ {
 			for {
@@ -176,6 +179,22 @@ func Build(s Spec) *Chain {
 				}
 				// a free slot always exists among 0..i-1 (i frames, i-1 edges so far, fan>=1 gives i slots)
 			}
+		}
+		if s.Layout == "anytree" && k > 2 {
+			// relabel the non-root nodes at random: a frame may link to frames with a SMALLER index
+			perm := rng.Perm(k - 1)
+			lab := func(pos int) int {
+				if pos == 0 {
+					return 0
+				}
+				return perm[pos-1] + 1
+			}
+			np := make([]int, k)
+			np[0] = -1
+			for i := 1; i < k; i++ {
+				np[lab(i)] = lab(parent[i])
+			}
+			parent = np
 		}
 	case "schema-head":
 		// groups [1..fan], [fan+1..2fan] ...; the first frame of a group links to the next group
@@ -215,10 +234,15 @@ func Build(s Spec) *Chain {
 			rng.Shuffle(len(f.Kids), func(a, b int) { f.Kids[a], f.Kids[b] = f.Kids[b], f.Kids[a] })
 		}
 	}
-	// ---- encode bottom-up (a parent always has a smaller index than its children)
-	for i := k - 1; i >= 0; i-- {
+	// ---- encode bottom-up (children before the frame that links to them)
+	var walk func(i int)
+	walk = func(i int) {
+		for _, j := range c.Frames[i].Kids {
+			walk(j)
+		}
 		c.encode(c.Frames[i])
 	}
+	walk(0)
 	return c
 }
 
@@ -575,4 +599,38 @@ func Getter(cache Decoded, fetched *int, views ...*View) func(ctx context.Contex
 		}
 		return nil, fmt.Errorf("c14: frame %s is not in the archive", wanted)
 	}
+}
+
+var zstdNoCRC, _ = zstd.NewWriter(nil, zstd.WithEncoderCRC(false), zstd.WithEncoderLevel(zstd.SpeedDefault), zstd.WithEncoderConcurrency(1))
+
+// ZstdNoCRC compresses without the optional zstd content checksum, so that zstd itself does not mask
+// what the frame checksum is there to catch.  Safe for concurrent use (EncodeAll).
+func ZstdNoCRC(b []byte) []byte { return zstdNoCRC.EncodeAll(b, nil) }
+
+// FattenMeta returns a protobuf TransactionStatusMeta equal to metaRaw plus log messages up to about
+// target bytes (the generator's metadata is only ~100 bytes; real metadata reaches hundreds of KiB).
+func FattenMeta(rng *rand.Rand, metaRaw []byte, target int) []byte {
+	var m confirmed_block.TransactionStatusMeta
+	if len(metaRaw) == 0 || proto.Unmarshal(metaRaw, &m) != nil {
+		return metaRaw
+	}
+	size := len(metaRaw)
+	for size < target {
+		n := 20 + rng.Intn(200)
+		b := make([]byte, n)
+		for i := range b {
+			if rng.Intn(3) == 0 {
+				b[i] = byte('a' + rng.Intn(26))
+			} else {
+				b[i] = "Program log: invoke [1] success consumed compute units "[rng.Intn(54)]
+			}
+		}
+		m.LogMessages = append(m.LogMessages, string(b))
+		size += n + 3
+	}
+	out, err := proto.Marshal(&m)
+	if err != nil {
+		return metaRaw
+	}
+	return out
 }
